@@ -23,6 +23,12 @@ type Mutex struct {
 	epoch int // execution in which held was set; a stale epoch means "left locked by an abandoned run"
 }
 
+// YieldAfterLock adds a scheduling point right after a mutex has been acquired, so that another
+// thread can run while the lock is held before the critical section has done anything (a copy of the
+// mutex taken at that moment is a locked mutex nobody will unlock). Off by default: it multiplies
+// the schedules and changes nothing for code that always goes through the lock.
+var YieldAfterLock bool
+
 //go:norace
 func (m *Mutex) isHeld() bool { return m.held && m.epoch == sched.Epoch() }
 
@@ -38,6 +44,9 @@ func (m *Mutex) Lock() {
 		m.held = true
 		m.epoch = sched.Epoch()
 		sched.RaceAcquire(unsafe.Pointer(&m.real)) // the edge sync.Mutex gives: previous Unlock -> this Lock
+		if YieldAfterLock {
+			x.Yield(sched.Op{Kind: "locked", Obj: m})
+		}
 	case sched.ModeAborting:
 	default:
 		m.real.Lock()
